@@ -33,6 +33,13 @@ def check(repo: Repo, rep, tier):
     tests_per_file(repo, rep)
     collect_all(repo, rep)
     outer_compare(repo, rep)
+    from .C20 import mode_table, one_mode
+    from .C04 import xdist_worker
+
+    # environment questions the three drivers must answer alike: which black options, whether xdist distributes
+    one_mode(repo, rep)
+    mode_table(repo, rep)
+    xdist_worker(repo, rep)
     from .C03 import import_only, import_scope
 
     import_only(repo, rep)
